@@ -546,6 +546,9 @@ impl Session {
             Ty::Transform => comp!(Transform),
             Ty::Name => comp!(Name),
             Ty::Visibility => comp!(Visibility),
+            Ty::PointLight => er.get::<PointLight>().map(|c| format!("{:08x}", c.intensity.to_bits())),
+            Ty::SpotLight => er.get::<SpotLight>().map(|c| format!("{:08x}", c.intensity.to_bits())),
+            Ty::DirLight => er.get::<DirectionalLight>().map(|c| format!("{:08x}", c.illuminance.to_bits())),
             _ => None,
         }
     }
@@ -588,6 +591,38 @@ impl Session {
             _ => return false,
         }
         self.trace.push(json!({"ev":"op","op":"exclude","peer":peer,"h":h,"ty":ty.name(),"on":on}));
+        true
+    }
+
+    /// the application supplies the engine companions of some kinds itself (with recognisable values)
+    pub fn add_companions(&mut self, peer: u32, h: u32, kinds: &[Ty]) -> bool {
+        let Some(e) = self.local_entity(peer, h) else { return false };
+        let w = self.peers[peer as usize].app.world_mut();
+        let mut em = w.entity_mut(e);
+        for k in kinds {
+            match k {
+                Ty::Transform => {
+                    em.insert(GlobalTransform::from(Transform::from_xyz(9.0, 9.0, 9.0)));
+                }
+                Ty::Visibility => {
+                    em.insert(InheritedVisibility::VISIBLE).insert(ViewVisibility::default());
+                }
+                Ty::PointLight => {
+                    em.insert(bevy::render::primitives::CubemapFrusta::default()).insert(bevy::pbr::CubemapVisibleEntities::default());
+                }
+                Ty::SpotLight => {
+                    em.insert(bevy::render::primitives::Frustum::default());
+                }
+                Ty::DirLight => {
+                    em.insert(bevy::render::primitives::CascadesFrusta::default())
+                        .insert(bevy::pbr::CascadesVisibleEntities::default())
+                        .insert(bevy::pbr::Cascades::default())
+                        .insert(bevy::pbr::CascadeShadowConfig::default());
+                }
+                _ => {}
+            }
+        }
+        self.trace.push(json!({"ev":"op","op":"add_companions","peer":peer,"h":h,"kinds":kinds.iter().map(|k| k.name()).collect::<Vec<_>>()}));
         true
     }
 
@@ -773,6 +808,10 @@ impl Session {
             has!(bevy::pbr::CascadesVisibleEntities, "CascadesVisibleEntities");
             has!(bevy::pbr::Cascades, "Cascades");
             has!(bevy::pbr::CascadeShadowConfig, "CascadeShadowConfig");
+            let gt = er.get::<GlobalTransform>().map(|g| {
+                let t = g.translation();
+                format!("{:08x}{:08x}{:08x}", t.x.to_bits(), t.y.to_bits(), t.z.to_bits())
+            });
             let parent = er.get::<Parent>().map(|p| e2u.get(&p.get()).map(|u| hex(u.as_bytes())).unwrap_or("unsynced".into()));
             let children: Vec<String> = er
                 .get::<Children>()
@@ -794,7 +833,7 @@ impl Session {
             exc!(Name, Ty::Name);
             exc!(Visibility, Ty::Visibility);
             ents.push(json!({"uuid": hex(u.as_bytes()), "comps": comps, "parent": parent, "children": children,
-                "excl": excl, "skinned": skinned, "companions": companions, "local": e.to_bits()}));
+                "excl": excl, "skinned": skinned, "companions": companions, "gt": gt, "local": e.to_bits()}));
         }
         ents.sort_by(|a, b| a["uuid"].as_str().cmp(&b["uuid"].as_str()).then(a["local"].as_u64().cmp(&b["local"].as_u64())));
         let marks = {
